@@ -119,6 +119,29 @@ def close_specs(ctx):
                     sp["exc_rot"] = ctx.seed
                     tag = "rcb-close#%d" % kw["rcb_close_at"] if "rcb_close_at" in kw else "scb-close@%d" % kw["scb_close_on"]
                     inj.append((sp, {"client": c, "cb": cb, "shape": sh + "/" + tag, "at": None, "oracle_only": True}))
+    # oracle-only: clients that build the network map run a seeding task after every (re)connect (three requests, 2 s
+    # apart); close() at any moment of that window must still leave nothing running
+    def npos_of(c, cb):
+        return min([o.get("npos") or 0 for m, o in zip(bmeta, bobs) if (m["client"], m["shape"], m["cb"]) == (c, "A", cb)] or [0])
+    for c in ("ebyte", "yd", "waveshare"):
+        for cb in ("ret", "slow"):
+            sp0 = _spec(c, cb, "A")
+            sp0["netmap"] = True
+            for at in list(range(0, max(0, min(40, npos_of(c, cb) - 3)), 3 if not thorough else 1)):
+                sp = dict(sp0)
+                sp["inject"] = {"at": at, "ops": [["close"]]}
+                sp["exc_rot"] = ctx.seed + at
+                inj.append((sp, {"client": c, "cb": cb, "shape": "A/netmap", "at": at, "oracle_only": True}))
+    # oracle-only: close() called a second time while the first is still delivering its CLOSED notification (slow callback)
+    for c in clients:
+        for cb in ("slow", "slowraise"):
+            sp0 = _spec(c, cb, "A")
+            sp0["cb_delay"] = 0.3
+            for at in list(range(4, max(4, min(40, npos_of(c, cb) - 6)), 4 if not thorough else 1)):
+                sp = dict(sp0)
+                sp["inject"] = {"at": at, "ops": [["close"], ["close2", 0.05]]}
+                sp["exc_rot"] = ctx.seed + at
+                inj.append((sp, {"client": c, "cb": cb, "shape": "A/close-twice", "at": at, "oracle_only": True}))
     iobs = vloop.run_batch([dict(sp) for sp, _ in inj], _repo(), wall=6, procs=3)
     for (sp, m), o in zip(inj, iobs):
         m["obs"] = o
@@ -242,6 +265,10 @@ def _judge(o, spec, twin, inner):
         if len(o["rcb"]) > cl.get("rcb_at_return", 0):
             return {"key": "close:callback-after", "what": f"{c}: receive callback ran after close() had returned (t="
                                                            f"{(cl.get('returned') or cl.get('cancelled')):.2f}): at {[round(t, 2) for t, _ in o['rcb'][cl['rcb_at_return']:]]}"}
+        if cl.get("link_open_at_return2"):
+            return {"key": "close:second-call-returns-with-link-open",
+                    "what": f"{c}: a second close() call (made while the first was still delivering its CLOSED notification) returned at "
+                            f"t={cl['returned2']:.2f} with the connection still open"}
         ws = o["writers"]
         cur = o["cur_wid"]
         if cur >= 0 and not ws[cur]["closed"]:
